@@ -266,12 +266,13 @@ class Evaluator:
             return True
         if k == "variant":
             v = pat["variant"]
+            test = self.isvar(term, pat["path"], v)
             for s in pat["subs"]:
                 sub_t = self.vfield(term, pat["path"], v, s["idx"])
                 r = self.pat_test(s["pat"], sub_t, env, body)
                 if r is not True:
-                    raise Unsupported("nested refutable pattern", body["span"])
-            return self.isvar(term, pat["path"], v)
+                    test = ("and", test, r)
+            return test
         if k == "const":
             if pat["ty"]["s"] == "bool" and "bits" in pat:
                 return term if int(pat["bits"]) == 1 else ("not", term)
@@ -283,8 +284,12 @@ class Evaluator:
                 raise Unsupported("constant pattern", body["span"])
             return ("==", term, c)
         if k == "leaf":
-            self.bind(pat, term, env, body)
-            return True
+            test = True
+            for s in pat["subs"]:
+                r = self.pat_test(s["pat"], self.field(term, s["idx"], None), env, body)
+                if r is not True:
+                    test = r if test is True else ("and", test, r)
+            return test
         raise Unsupported("pattern kind " + k, body["span"])
 
     def isvar(self, term, path, v):
